@@ -226,6 +226,9 @@ func (g *Gen) genAdvance() Op {
 				continue
 			}
 			xs := []time.Time{d.Lo.Add(-3 * Eps), d.Hi.Add(3 * Eps)}
+			if !d.Probe.IsZero() {
+				xs = append(xs, d.Probe.Add(3*Eps))
+			}
 			if g.P.TargetExpiry {
 				xs = append(xs, d.Exp.Add(-3*Eps), d.Exp.Add(3*Eps))
 			}
@@ -355,6 +358,34 @@ func (g *Gen) Next() Op {
 				continue
 			}
 			return op
+		case OpStream:
+			if len(ls) == 0 {
+				continue
+			}
+			{
+				s := rapid.SampledFrom(ls).Draw(t, "sub")
+				now := sut.Now()
+				// only acks of deliveries that are certainly still leased: the stream
+				// cannot race the ack by redelivering them first
+				leased := g.handles(s, func(d *Del) bool { return d.State == Out && !d.Fuzzy && now.Before(d.Lo.Add(-Eps)) })
+				op := Op{K: k, S: s}
+				switch rapid.IntRange(0, 3).Draw(t, "streammode") {
+				case 0:
+					op.H = g.subset(leased, "sack1")
+				case 1:
+					op.H2 = g.subset(leased, "sack2")
+				case 2:
+					hs := g.subset(leased, "sack")
+					for i, h := range hs {
+						if i%2 == 0 {
+							op.H = append(op.H, h)
+						} else {
+							op.H2 = append(op.H2, h)
+						}
+					}
+				}
+				return op
+			}
 		case OpModAck:
 			if len(ls) == 0 {
 				continue
